@@ -24,7 +24,7 @@ RULE = ('part RT (round trip): objects.inv written by SphinxInventoryWriter for 
         'reported. A fuzz input is non-trivial if it is not a valid inventory; distinct by content hash.')
 ASSUME = ['Sphinx 9.1 loader is a second, independent reader', 'zlib and the UTF-8 decoder belong to the interpreter',
           'a corrupted line that still parses (possibly under another name/domain) is usable by definition']
-DECIDING = {'fuzz_inputs': 5000, 'line_corruptions': 2000, 'roundtrip_entries': 500, 'sphinx_entries': 500, 'other_lines_checked': 5000, 'inventories_with_many_damaged_lines': 500}
+DECIDING = {'fuzz_inputs': 5000, 'line_corruptions': 2000, 'roundtrip_entries': 500, 'sphinx_entries': 500, 'other_lines_checked': 5000, 'inventories_with_many_damaged_lines': 500, 'big_inventories': 8}
 CPU_S = 900
 CRASH_IS_VIOLATION = True
 
@@ -52,6 +52,8 @@ def cases(tier: str, seed: int) -> List[Dict[str, Any]]:
     n = 32000 if tier == 'quick' else 400000
     for k in range(0, n, 1000):
         out.append({'part': 'LC', 'seed': seed, 'k': k, 'n': 1000})
+    for k in range(0, 16 if tier == 'quick' else 256, 2):
+        out.append({'part': 'BIG', 'seed': seed, 'k': k, 'n': 2})
     out.append({'part': 'RT', 'fixture': True})
     from vf.gen import corpus
     r = core.rng(seed, 'C17', 'corpus')
@@ -487,7 +489,35 @@ def _run_RT(case: Dict[str, Any], res: core.Res) -> None:
         res.sample({'roundtrip': f"generated {case['gen']}"})
 
 
+def _run_BIG(case: Dict[str, Any], res: core.Res) -> None:
+    """large valid inventories (hundreds of KiB of text) of names written in several scripts, shifted byte by byte: every line resolves"""
+    r = core.rng(case['seed'], 'C17', 'BIG', case['k'])
+    words = ['obj', 'h\u00e9llo', '\u043a\u043b\u0430\u0441\u0441', '\u540d\u524d', '\u03b1\u03b2\u03b3', 'z\U0001d4d0']
+    for shift in range(case['k'], case['k'] + case['n']):
+        nl = r.randint(1500, 6000)
+        lines = ['pad' + 'x' * shift + ' py:class 1 pad.html -']       # (an entry whose only purpose is to shift the bytes that follow)
+        names = []
+        for i in range(nl):
+            name = f'pkg.m{i % 7}.{words[(i + shift) % len(words)]}_{i}'
+            names.append(name)
+            lines.append(f'{name} py:class 1 pkg.m{i % 7}.html#{words[i % len(words)]}_{i} -')
+        try:
+            inv, log = _load([('http://h/objects.inv', _inv(lines))])
+        except Exception as e:  # noqa: BLE001
+            res.v(f'C17:update-raises:{type(e).__name__}:big', f'SphinxInventory.update raised {e!r} on a valid inventory of {nl} lines', shift=shift, lines=nl)
+            continue
+        res.c('big_inventories')
+        res.c('evaluations')
+        res.distinct(f'big:{shift}')
+        missing = [n for n in names if inv.getLink(n) is None]
+        res.c('big_inventory_entries', len(names))
+        if missing or log:
+            res.v('C17:valid-inventory-not-loaded', f'a valid inventory of {nl} lines ({sum(len(l.encode()) + 1 for l in lines)} bytes of text, shifted by {shift}): {len(missing)} names do not resolve '
+                  f'(first {missing[:2]}), messages {log[:2]}', shift=shift, lines=nl)
+    res.sample({'big_inventory_shift': case['k']})
+
+
 def run_case(case: Dict[str, Any]) -> core.Res:
     res = core.Res()
-    {'FZ': _run_FZ, 'LC': _run_LC, 'RT': _run_RT}[case['part']](case, res)
+    {'FZ': _run_FZ, 'LC': _run_LC, 'RT': _run_RT, 'BIG': _run_BIG}[case['part']](case, res)
     return res
